@@ -427,3 +427,9 @@ pub fn replay(_part: &str, bytes: &[u8], case: &Value, stats: &mut Stats) -> Ver
     }
     check(bytes, stats)
 }
+
+/// Byte-level entry for the fuzz target.
+pub fn fuzz_entry(bytes: &[u8]) -> Verdict {
+    let mut st = Stats::new();
+    check(bytes, &mut st)
+}
